@@ -27,9 +27,9 @@ checks = {
          "operator tables are enumerated; mixed associativity at one level excluded as undocumented"),
  "C09": ("generated parse()/_recover()/_makeError() on symbolic token sequences including lexer ERROR tokens over 12 @error placements (n<=4 / n<=6): step-budget overruns are termination candidates (replayed natively), no panic, non-sentences never accepted silently, first delivered Error carries the first non-viable token (viable-prefix recogniser over the reference CNF), recovered trees are derivation trees with @error stretches.",
          "corpus grammars; budget 3M SSA steps per path"),
- "C10": ("kernel checks over arbitrary table contents: (1) the real table[int32|uint32].AddRow/Array/rowKey with symbolic cells and hole patterns — decoding Array() by the documented layout returns exactly the rows, missing indices are -1, index cells stay inside, shared rows are equal (varint keys compared by the solver); (2) the generated _Find on an arbitrary well-formed table, row and key; (3) two steps of the generated PushRune on an arbitrary sorted-disjoint row with symbolic bounds, targets and non-greedy flag (binary search, accept after consumption, no empty match). (4) gen.Product: for the default mode of 7 (thorough: all) lexer items the set of pairs (table state, reference position set) is closed by a work-list; each pair is one exploration in which the solver decides for every rune -1..U+10FFFF at once that the emitted table and the Glushkov reference agree on consuming, on the accepted rule and on the successor pair — agreement over strings of any length within one match; (5) concrete precondition gen.RowInvariant: every emitted row of every lexer item is inside the table, sorted, disjoint, with existing targets and known actions.",
-         "table shapes of the kernel lemmas bounded (<=3 rows x 2 cells quick); the product covers the default mode of each item (other modes and the parser tables are covered by the bounded differentials of C01/C03/C07 only); RowInvariant is concrete, not solver-decided"),
- "C12": ("front end only. The real ParseLox (parser.Parse with the augmented lexer and every on_* action, unescape/hexToRune, ast.Analyze with its four passes over every node type, ModeBuilder.Build, NFAToDFA/optimize, ConstructLALR) is executed from its SSA on in-memory .lox files made of a template with holes: every hole is an arbitrary byte (any value, invalid UTF-8 included) — 12 templates (precedence digits, literal body, class body, token name, @push_mode/@emit argument, raw bytes at statement level in both sections, term reference, cardinality and operator positions) with up to 2 (thorough 3) holes, one hole in the second file of a two-file specification, precedences of 1-3 and 19-20 arbitrary digits. Asserted on every path: no panic, no budget overrun, failure implies at least one printed diagnostic and the error flag, success implies grammar, table and modes without conflicts.",
+ "C10": ("kernel checks over arbitrary table contents: (1) the real table[int32|uint32].AddRow/Array/rowKey with symbolic cells and hole patterns — decoding Array() by the documented layout returns exactly the rows, missing indices are -1, index cells stay inside, shared rows are equal (varint keys compared by the solver); (2) the generated _Find on an arbitrary well-formed table, row and key; (3) two steps of the generated PushRune on an arbitrary sorted-disjoint row with symbolic bounds, targets and non-greedy flag (binary search, accept after consumption, no empty match). (4) gen.Product: for every mode (non-default ones entered through a host-computed string of complete, non-extendable matches) of 6 (thorough: all) lexer items the set of pairs (table state, reference position set) is closed by a work-list; each pair is one exploration in which the solver decides for every rune -1..U+10FFFF at once that the emitted table and the Glushkov reference agree on consuming, on the accepted rule and on the successor pair — agreement over strings of any length within one match; (5) concrete precondition gen.RowInvariant: every emitted row of every lexer item is inside the table, sorted, disjoint, with existing targets and known actions.",
+         "table shapes of the kernel lemmas bounded (<=3 rows x 2 cells quick); the parser tables are covered by the bounded differentials of C01/C03 and the _Find lemma only; RowInvariant is concrete, not solver-decided"),
+ "C12": ("front end only. The real ParseLox (parser.Parse with the augmented lexer and every on_* action, unescape/hexToRune, ast.Analyze with its four passes over every node type, ModeBuilder.Build, NFAToDFA/optimize, ConstructLALR) is executed from its SSA on in-memory .lox files made of a template with holes: every hole is an arbitrary byte (any value, invalid UTF-8 included) — 26 templates (precedence digits, literal body, class body, token name, @push_mode/@emit argument, raw bytes at statement level in both sections, term reference, cardinality and operator positions) with up to 2 (thorough 3) holes, one hole in the second file of a two-file specification, \\x/\\u/\\U escapes with arbitrary hexadecimal digits, precedences of 1-3 and 19-20 arbitrary digits. Concrete by-product (not solver-decided): every corpus item of every family is run through the real binary and crashes are reported. Asserted on every path: no panic, no budget overrun, failure implies at least one printed diagnostic and the error flag, success implies grammar, table and modes without conflicts.",
          "Go-package inputs (missing, empty, ill-typed packages), template rendering, go/format and partial output on disk are outside: behind go list, reflection and I/O"),
  "C13": ("map-iteration dimension only. The iteration order of Go's built-in maps is an explicit oracle of the engine (a solver variable per map size and path, all n! orders for n<=4, rotations and reversals above): stablemap.Map under arbitrary Put/Remove/Clear sequences with arbitrary keys keeps insertion order; ModeBuilder.Build (normalizeInputs, NFAToDFA, optimize, mergeTransitions, pickAction) on three rule sets and ConstructLALR on an expression grammar produce identical serialised automata / tables under every explored order.",
          "stale files, working directories and other processes have no encoding here; map ranges in codegen that need go/types objects are read, not executed"),
